@@ -300,23 +300,47 @@ end
 
 `types = fixed ++ [variadic slice type]`; `elemT` is `types.last.Elem()`.  A tuple needs at least `len(types)-1` components;
 component `i` is resolved (non-variadically) against `types[i]` for `i < len(types)-1` and against `elemT` from there on —
-which is `typeAt (fixed ++ [elemT]) i`.  A non-tuple item in variadic mode is expanded with `reflect.Value.Len` and is not
-modelled.  `Eval` replaces the packed last argument by its elements and otherwise proceeds as above. -/
+which is `typeAt (fixed ++ [elemT]) i`.  A non-tuple item is one argument, except a slice/array at the variadic position, which is expanded (below).  `Eval` replaces the packed last argument by its elements and otherwise proceeds as above. -/
 
-/-- A non-tuple item in variadic mode (expr.go:74-81): when its INDEX among the items (sic — the code compares the item index,
-    not a parameter position) is at least `len(types)-1` it is expanded with `reflect.ValueOf(v).Len()`, which panics for
-    anything that is not a slice/array/string/map value (`In(1, 2)` on `f(xs ...int)`); the expansion itself is not modelled. -/
-def lenPanics : Comp → Bool
-  | .val (some (.slice .., _)) | .val (some (.nilslice .., _)) | .val (some (.arr .., _)) | .val (some (.str .., _))
-  | .val (some (.map .., _)) | .val (some (.nilmap .., _)) => false
-  | _ => true
+/-- A non-tuple item in variadic mode (expr.go:74-87): only when its index among the items is at least `len(types)-1` AND it is a
+    slice or array value, it is expanded element by element into an argument list; every other alternative (number, string,
+    expression, nil, …) is itself ONE argument. -/
+def expandable : Comp → Option Vals
+  | .val (some (.slice _ _ es, _)) => some es
+  | .val (some (.nilslice _, _)) => some .nil
+  | .val (some (.arr _ es, _)) => some es
+  | _ => none
+
+/-- `rv.Index(j).Interface()` for every element: the element as a plain value.  The term language carries `Type().Size()` only
+    for the root of a pattern, so the expansion is modelled when every element has exactly the type it is bound to (then the
+    size is that type's) and is not an interface position; otherwise `none` (→ `unmodelled`). -/
+def expandElems : Vals → List Ty → Nat → Option Comps
+  | .nil, _, _ => some .nil
+  | .cons e es, types, j =>
+    match typeAt types j with
+    | none => none
+    | some t =>
+      match e with
+      | .iface .. | .nilif .. => none
+      | e => if e.ty == t.name then (expandElems es types (j + 1)).map (fun cs => .cons (.val (some (e, t.size))) cs) else none
+
+/-- `ToExpr(param, types, true)` (value.go:116): at least `len(types)-1` arguments, then component-wise. -/
+def toExprV (cs : Comps) (fixed : List Ty) (elemT : Ty) : Res RRow :=
+  if cs.len < fixed.length then .err "the-number-of-args" else toExprFrom cs (fixed ++ [elemT]) 0
 
 def resolveTuplesVFrom : Items → List Ty → Ty → Nat → Res RRows
   | .nil, _, _, _ => .ok .nil
-  | .one c _, fixed, _, i =>
-    if i ≥ fixed.length && lenPanics c then .panic "reflect-call-of-reflect.value.len" else .unmodelled
+  | .one c rest, fixed, elemT, i =>
+    if c.isTupleLike then .unmodelled else
+    (match (if i ≥ fixed.length then expandable c else none) with
+     | some es =>
+       match expandElems es (fixed ++ [elemT]) 0 with
+       | some cs => toExprV cs fixed elemT
+       | none => .unmodelled
+     | none => toExprV (.cons c .nil) fixed elemT).bind
+      (fun row => (resolveTuplesVFrom rest fixed elemT (i + 1)).bind (fun rows => .ok (.cons row rows)))
   | .tuple cs rest, fixed, elemT, i =>
-    (if cs.len < fixed.length then (Res.err "the-number-of-args" : Res RRow) else toExprFrom cs (fixed ++ [elemT]) 0).bind
+    (toExprV cs fixed elemT).bind
       (fun row => (resolveTuplesVFrom rest fixed elemT (i + 1)).bind (fun rows => .ok (.cons row rows)))
 
 def resolveTuplesV (items : Items) (fixed : List Ty) (elemT : Ty) : Res RRows := resolveTuplesVFrom items fixed elemT 0
